@@ -104,7 +104,7 @@ def txRun : List Sexp → Tx → List SendRes → List Sexp
       | some g, some d => txRun cs { st with txgs := st.txgs ++ [(g, d)] } sc
       | _, _ => [sym "bad-request"]
     | .atom k =>
-      let r := if k == "g" then serviceTxGrams st sc else serviceTxGramsOnce st sc
+      let r := serviceCall (k == "g") st sc
       let line := tag "call" (r.evs.map outEv)
       match r.escaped with
       | some e => [line, tag "escape" [sym (exnName e), outTx r.st]]
